@@ -190,6 +190,30 @@ pub fn judge(c: &FileCase, ev: &mut Local) -> Result<(), Fail> {
         call.peak,
         call.maxreq
     );
+    // the same bytes through readers that deliver them piecewise (a BufReader at a buffer boundary, a pipe): same verdict,
+    // same structure
+    if c.bytes.len() <= 16 * 1024 {
+        for pattern in [&[1usize][..], &[7, 3], &[64, 1]] {
+            let piecewise = guard(|| -> Result<String, ()> {
+                let mut t = Trickle::new(&c.bytes, pattern);
+                match c.fmt {
+                    Format::Pth => Pth::read(&mut t).map(|p| format!("{p:?}")).map_err(|_| ()),
+                    Format::Smx => Smx::read(&mut t).map(|p| format!("{p:?}")).map_err(|_| ()),
+                }
+            })
+            .map_err(|p| Fail::new(format!("c17:{f}-parser-panics"), format!("{} read piecewise {pattern:?}: {p}", c.label)))?;
+            let whole: Result<&String, ()> = call.parsed.as_ref().map(|(d, _)| d).map_err(|_| ());
+            ensure!(
+                piecewise.as_ref().map_err(|_| ()) == whole,
+                format!("c17:{f}-depends-on-how-the-reader-delivers-bytes"),
+                "{} ({} bytes): from a slice {}, from a reader delivering {pattern:?} bytes per call {}",
+                c.label,
+                c.bytes.len(),
+                whole.map(|d| d.chars().take(80).collect::<String>()).unwrap_or("rejected".into()),
+                piecewise.as_ref().map(|d| d.chars().take(80).collect::<String>()).unwrap_or("rejected".into())
+            );
+        }
+    }
     match &call.parsed {
         Err(e) => {
             ensure!(!c.canonical, format!("c17:{f}-valid-file-rejected"), "{}: a complete file of {} bytes was rejected: {e}", c.label, c.bytes.len());
@@ -365,7 +389,7 @@ pub fn run(run: &mut Run) {
         file must be rejected when it lies inside the declared content; every count field is overwritten with -1, i32::MIN, 2^31-1, \
         count+1 (must not panic, must stay within the allocation bound of 64 KiB + 64 x input, count+1 must be rejected); random byte \
         strings with and without the magic; files whose collections have 255..257, 32 767..32 768 and 65 535..70 000 elements (and files declaring more than they hold); the two shipped files whole and cut at every point of their first 4 KB; from_file / \
-        from_pathbuf on a temporary file must agree with the in-memory reader. Non-trivial = the file holds a non-empty collection, a \
+        from_pathbuf on a temporary file must agree with the in-memory reader, and so must readers that deliver the bytes piecewise (1; 7,3; 64,1 bytes per call). Non-trivial = the file holds a non-empty collection, a \
         hostile count, or is a truncation inside the body."
         .into();
     run.assumptions = vec![
